@@ -488,5 +488,6 @@ def run(ctx: Ctx):  # noqa: F811
                     "interval/integral tactics (Interval 4.6)", "scipy.special.erf accurate to 1e-12 (validated against mpmath at the sampled points)",
                     "mpmath quadrature as the independent oracle of the sweep"]
     ctx.assumptions += ["erf is DEFINED as 2/sqrt(pi) * RInt exp(-t^2) 0 x (no axiom)",
-                        "partial: r*V -> Q as r -> infinity (needs erf(inf) = 1, not in the libraries) and continuity across the 1e-12 switch are "
-                        "checked on the implementation by the sweep only"]
+                        "r*V -> Q as r -> infinity is PROVED (C17_gauss.v proves the Gaussian integral: gI(x)^2 + int_0^1 e^(-x^2(1+t^2))/(1+t^2) dt = pi/4, "
+                        "hence 0 <= 1 - erf x <= 4/pi e^(-x^2)); partial: continuity across the 1e-12 switch is a statement about floating-point "
+                        "evaluation on both sides of the threshold and is checked on the implementation by the sweep only"]
